@@ -799,6 +799,8 @@ class QueryPlanner:
     # method for compatibility
     def from_query(self, query=None):
         self.plan = QueryPlan()
+        # results of CTEs belong to the plan of one query
+        self.cte_results = {}
 
         if query is None:
             query = self.query
